@@ -104,6 +104,57 @@ def touch_bases(cls):
                     pass
 
 
+def custom_candidates(cls, mn, cm):
+    """[(description, term)]: variations of the MIN term around the class-specific rule of cls - violating and boundary"""
+    n = cls.__name__
+    name, kw, mem = mn
+    dv = lambda k: U.default_value(cm[k]) if cm[k].kind == "elem" else U.MIN(cm[k].target)
+    kinds = {c.target.__name__: c for c in cm.values() if c.kind == "lagg"}
+    mk = lambda k, i=0: U.member_default(kinds[k], i)
+    out = []
+    if n in ("MSGSETCORE", "MFACHALLENGERS", "CONTRIBINFO", "MSGSETLIST", "TAX1099MSGSRQV1", "TAX1099MSGSRSV1", "TAX1099MSGSETV1", "ACCTINFO", "TAX1099RS"):
+        out.append(("no member at all", (name, kw, [])))
+    if n == "TAX1099RS":
+        out.append(("only FIDIRECTDEPOSITINFO members", (name, kw, [mk("FIDIRECTDEPOSITINFO")])))
+        out.append(("a form and a FIDIRECTDEPOSITINFO", (name, kw, [mk("FIDIRECTDEPOSITINFO")] + list(mem))))
+    if n == "ACCTINFO":
+        b, c, i = mk("BANKACCTINFO"), mk("CCACCTINFO"), mk("INVACCTINFO")
+        out += [("two BANKACCTINFO, adjacent", (name, kw, [b, mk("BANKACCTINFO", 1)])), ("two BANKACCTINFO around a CCACCTINFO", (name, kw, [b, c, mk("BANKACCTINFO", 1)])),
+                ("two CCACCTINFO around two others", (name, kw, [c, b, i, mk("CCACCTINFO", 1)])), ("one of each service", (name, kw, [b, c, i]))]
+    if n == "OFX":
+        rs = "signonmsgsrsv1" in kw
+        other = next(c for c in cm.values() if c.kind == "sub" and c.name.endswith("rqv1" if rs else "rsv1") and not c.name.startswith("signon"))
+        out.append(("request and response message sets mixed", with_kw(mn, other.name, U.MIN(other.target))))
+    if n == "SONRQ":
+        base = with_kw(with_kw(with_kw(mn, "userid", None), "userpass", None), "userkey", None)
+        out += [("USERID without USERPASS", with_kw(base, "userid", dv("userid"))), ("USERPASS without USERID", with_kw(base, "userpass", dv("userpass"))),
+                ("neither credentials nor USERKEY", base), ("USERID, USERPASS and USERKEY", with_kw(with_kw(with_kw(base, "userid", dv("userid")), "userpass", dv("userpass")), "userkey", dv("userkey"))),
+                ("USERID and USERKEY", with_kw(with_kw(base, "userid", dv("userid")), "userkey", dv("userkey")))]
+    if n == "CONTRIBSECURITY":
+        base = (name, {k: v for k, v in kw.items() if k == "secid"}, mem)
+        out += [("no source", base), ("a percentage and an amount", with_kw(with_kw(base, "pretaxcontribpct", dv("pretaxcontribpct")), "aftertaxcontribamt", dv("aftertaxcontribamt"))),
+                ("amounts only", with_kw(with_kw(base, "pretaxcontribamt", dv("pretaxcontribamt")), "aftertaxcontribamt", dv("aftertaxcontribamt")))]
+    if n == "EXTDPMT":
+        out += [("neither EXTDPMTDSC nor EXTDPMTINV", (name, {k: v for k, v in kw.items() if k != "extdpmtdsc"}, [])),
+                ("EXTDPMTINV only", (name, {k: v for k, v in kw.items() if k != "extdpmtdsc"}, [mk("EXTDPMTINV")]))]
+    if n == "EXTDPAYEE":
+        base = with_kw(with_kw(with_kw(mn, "payeeid", None), "idscope", None), "name", None)
+        p = with_kw(base, "payeeid", dv("payeeid"))
+        out += [("PAYEEID alone", p), ("PAYEEID with IDSCOPE only", with_kw(p, "idscope", dv("idscope"))), ("PAYEEID with NAME only", with_kw(p, "name", dv("name"))),
+                ("PAYEEID with IDSCOPE and NAME", with_kw(with_kw(p, "idscope", dv("idscope")), "name", dv("name")))]
+    if n == "TAX1099R_V100":
+        base = with_kw(mn, "irasepsimp", None)
+        for k in ("grossdist", "taxamt", "fedtaxwh", "sttaxwh", "lcltaxwh"):
+            if k not in cm or cm[k].kind != "elem":
+                continue
+            out.append((f"{k.upper()} without IRASEPSIMP", with_kw(base, k, dv(k))))
+        out.append(("GROSSDIST with IRASEPSIMP", with_kw(with_kw(base, "grossdist", dv("grossdist")), "irasepsimp", dv("irasepsimp"))))
+    if n == "TAX1099MISC_V100":
+        base = with_kw(with_kw(mn, "sttaxwh", None), "payerstate", None)
+        out += [("STTAXWH without PAYERSTATE", with_kw(base, "sttaxwh", dv("sttaxwh"))), ("STTAXWH with PAYERSTATE", with_kw(with_kw(base, "sttaxwh", dv("sttaxwh")), "payerstate", dv("payerstate")))]
+    return out
+
+
 def class_probes(t, cls):
     n = cls.__name__
     touch_bases(cls)
@@ -250,6 +301,21 @@ def class_probes(t, cls):
                     continue
                 P.must_accept("ctor", f"only {m}", f"{kind}:{gname}", via_ctor, one, case)
                 P.must_accept("tree", f"only {m}", f"{kind}:{gname}", via_tree, wire.doc(one), case)
+    # ---- class-specific rules (reference: S.custom_problems, written from the specification text the classes quote)
+    if n in S.CUSTOM_CLASSES:
+        for what, bad in custom_candidates(cls, mn, cm):
+            t.count("constraints")
+            case = {"cls": n, "probe": "class-rule", "what": what}
+            generic = S.term_problems(bad, custom=False)
+            special = S.custom_problems(bad[0], bad[1], bad[2])
+            if generic:
+                raise HarnessError(f"class-rule candidate for {n} ({what}) also breaks a declared constraint: {generic[:2]}")
+            if special:
+                P.must_reject("ctor", what, "class-rule", via_ctor, bad, case)
+                P.must_reject("tree", what, "class-rule", via_tree, wire.doc(bad), case)
+            elif n not in ("SONRQ", "OFX"):
+                P.must_accept("ctor", what, "class-rule", via_ctor, bad, case)
+                P.must_accept("tree", what, "class-rule", via_tree, wire.doc(bad), case)
     # ---- sequence order and duplicates (tree route) on the MAXS document
     sdoc = wire.doc(mx)
     kids = sdoc[1]
@@ -341,7 +407,7 @@ def run(ctx):
         "rule": "every class x every declared/inherited constraint: required child omitted (MIN and MAXS); each pair of a group present, none of an exactly-one group (also: only an empty string), "
         "each member alone; enumeration foreign tokens (near misses and 8 tokens of other enumerations, accepted there first) and first/last token; string at limit / limit+1 (also counted in escaped ampersands; NagString warns and keeps); "
         "integer +-(10^n-1) / 10^n,-10^n,10^(n+1); non-value text per typed element; every adjacent pair of the MAXS tree swapped (unless both repeated); every "
-        "non-repeatable child duplicated (adjacent and one sibling later); foreign aggregate / int / str as list member; undeclared keyword - through the keyword "
+        "non-repeatable child duplicated (adjacent and one sibling later); foreign aggregate / int / str as list member; the class-specific rules of 16 classes (one-or-more members, one account-info per service, request / response not mixed, credentials, contribution sources, conditional requirements); undeclared keyword - through the keyword "
         "constructor and through Aggregate.from_etree on a tree built by the harness; distinct_nontrivial = violating variants, evaluations also count boundary variants",
         "constraints": tally.counts.get("constraints", 0),
         "violating_variants": tally.counts.get("violating", 0),
